@@ -1100,12 +1100,14 @@ fn main() {
     match args.first().map(String::as_str) {
         Some("gen") => {
             let (mut profile, mut seed, mut cases) = ("mixed".to_string(), 0u64, 100usize);
+            let mut start = 0usize;
             let mut i = 1;
             while i + 1 < args.len() {
                 match args[i].as_str() {
                     "--profile" => profile = args[i + 1].clone(),
                     "--seed" => seed = args[i + 1].parse().unwrap_or_else(|_| usage()),
                     "--cases" => cases = args[i + 1].parse().unwrap_or_else(|_| usage()),
+                    "--start" => start = args[i + 1].parse().unwrap_or_else(|_| usage()),
                     "--tcap" => T_CAP_SETTING.store(args[i + 1].parse().unwrap_or_else(|_| usage()), Relaxed),
                     _ => usage(),
                 }
@@ -1122,7 +1124,7 @@ fn main() {
                 out.flush();
                 return;
             }
-            let (mut emitted, mut item) = (0, 0);
+            let (mut emitted, mut item) = (0, start);
             while emitted < cases {
                 let cs = gen::item(&profile, &mut rng, item);
                 item += 1;
